@@ -346,6 +346,19 @@ func (i *interpreter) toNativeTyped(v value, t types.Type, opaque map[int]value)
 		}
 	case *value:
 		if x == nil {
+			// a typed nil pointer stays typed (it is not the nil interface:
+			// `v-if="p"` is true for it, `p == nil` too)
+			if t != nil {
+				if pt, ok := t.Underlying().(*types.Pointer); ok {
+					if st, isStruct := pt.Elem().Underlying().(*types.Struct); isStruct {
+						if rt := goStructType(pt.Elem(), st); rt != nil {
+							prt := reflect.PointerTo(rt)
+							nilPtrTypes.Store(prt, t)
+							return reflect.Zero(prt).Interface(), true
+						}
+					}
+				}
+			}
 			return nil, true
 		}
 		if t != nil {
@@ -436,6 +449,12 @@ func (i *interpreter) fromNativeAny(x any, opaque map[int]value) value {
 	}
 	rv := reflect.ValueOf(x)
 	switch rv.Kind() {
+	case reflect.Pointer:
+		if rv.IsNil() {
+			if t, ok := nilPtrTypes.Load(rv.Type()); ok {
+				return iface{t.(types.Type), (*value)(nil)}
+			}
+		}
 	case reflect.Struct:
 		if f := rv.FieldByName(structIDField); f.IsValid() && f.Kind() == reflect.Int {
 			o := opaque[int(f.Int())]
@@ -851,6 +870,9 @@ func goFieldType(t types.Type) reflect.Type {
 	// pointers, interfaces, nested things without a faithful Go type
 	return anyType
 }
+
+// reflect type of a typed nil pointer handed to the VM -> its go/types type
+var nilPtrTypes sync.Map
 
 func goStructType(t types.Type, st *types.Struct) reflect.Type {
 	key := t.String()
